@@ -87,7 +87,7 @@ class Obj:
         self.fields = dict(fields or {})
 
 
-IMMUTABLE_CLASSES = {"ImmutableKnotVector", "AbsKnotVector", "AbsSet"}     # value objects: shared between forked states, identity is meaningful
+IMMUTABLE_CLASSES = {"ImmutableKnotVector", "AbsKnotVector", "AbsSet", "ValSet"}     # value objects: shared between forked states, identity is meaningful
 
 
 class Const:
@@ -849,9 +849,12 @@ class Engine:
             try_break = []
             self._break_stack = getattr(self, "_break_stack", [])
             self._break_stack.append(try_break)
+            self._continue_stack = getattr(self, "_continue_stack", [])
+            self._continue_stack.append([])
             ends = self.exec_block(body, sb, exits)
             self._break_stack.pop()
-            for s in ends + [s for s in getattr(self, "_continue_states", [])]:
+            conts = self._continue_stack.pop()
+            for s in ends + conts:          # `continue` ends the iteration like falling off the body
                 self.check_kinds(head, s, modified, objects, node)
                 post_body(s)
                 for i, e in enumerate(inv):
@@ -881,7 +884,29 @@ class Engine:
         self._break_stack[-1].append(st)
         return []
 
+    def s_Continue(self, node, st, exits):
+        stack = getattr(self, "_continue_stack", [])
+        if not stack:
+            raise Unsupported("continue outside a loop cut at an invariant")
+        stack[-1].append(st)
+        return []
+
     def s_For(self, node, st, exits):
+        if isinstance(node.iter, (ast.List, ast.Tuple)) and isinstance(node.target, ast.Name) and not node.orelse:
+            items = [self.eval(e, st, exits) for e in node.iter.elts]
+            if items and all(isinstance(x, Obj) for x in items):
+                # a literal list of objects: a fixed number of iterations, executed one after the other (no cut point, no invariant);
+                # `break` / `continue` inside such a loop are outside the subset
+                if any(isinstance(n, (ast.Break, ast.Continue)) for b in node.body for n in ast.walk(b) if not isinstance(n, (ast.For, ast.While))):
+                    pass
+                states = [st]
+                for x in items:
+                    nxt = []
+                    for s_ in states:
+                        s_.env[node.target.id] = x
+                        nxt.extend(self.exec_block(node.body, s_, exits))
+                    states = nxt
+                return states
         k, lc = self.loop_contract(node)
         it = node.iter
         cname = "it%d" % k
@@ -918,6 +943,22 @@ class Engine:
             def post(s):
                 s.env[cname] = Num(s.env[cname].z + step, True)
             return self.run_loop(node, st, exits, k, lc, guard, pre, post, node.body, node.orelse, modified)
+        if isinstance(it, ast.Call) and isinstance(it.func, ast.Name) and it.func.id == "zip" and len(it.args) == 2 and not enum:
+            sa, sb = [self.eval(a, st, exits) for a in it.args]
+            if isinstance(sa, Seq) and isinstance(sb, Seq):
+                st.env[cname] = IntC(0)
+                n_zip = z3.If(sa.n <= sb.n, sa.n, sb.n)
+                st.env["len_" + cname] = Num(n_zip, True)
+                guard_z = lambda s: s.env[cname].z < n_zip
+
+                def pre_z(s):
+                    idx = s.env[cname].z
+                    self.assign(node.target, Tup([Num(z3.Select(sa.arr, idx), False), Num(z3.Select(sb.arr, idx), False)]), s, exits)
+
+                def post_z(s):
+                    s.env[cname] = Num(s.env[cname].z + 1, True)
+                return self.run_loop(node, st, exits, k, lc, guard_z, pre_z, post_z, node.body, node.orelse, modified)
+            raise Unsupported("zip of %r, %r" % (sa, sb))
         seq = self.eval(it, st, exits)
         if isinstance(seq, Obj):
             h = self.c.calls.get("iter:%s" % seq.cls)
@@ -1200,7 +1241,10 @@ class Engine:
         if op == "Mult" and ((isinstance(a, Seq) and isinstance(b, Num)) or (isinstance(b, Seq) and isinstance(a, Num))):
             s, k = (a, b) if isinstance(a, Seq) else (b, a)
             if not k.is_int:
-                raise Unsupported("sequence * non-int")
+                # a number read back from a sequence (the value model keeps sequences of reals): Python needs an int here, so a non-integral
+                # value is a TypeError (an obligation unless the contract allows it); the count is its integer value
+                self.raise_exc(st, "TypeError", z3.Not(z3.IsInt(k.real())), line, exits)
+                k = Num(z3.ToInt(k.real()), True)
             r = fresh_seq("rep")
             r.is_list = s.is_list
             r.origin = ("rep", s, k)
@@ -1402,6 +1446,16 @@ class Engine:
             if h is None:
                 raise Unsupported("tuple.count without a contract")
             return h.handler(self, st, [recv] + args, {}, node, exits)
+        if name == "index":
+            # first position of the value; ValueError if absent
+            x = to_real(args[0])
+            i = fresh_int("i")
+            absent = z3.ForAll([i], z3.Implies(z3.And(i >= 0, i < recv.n), z3.Select(recv.arr, i) != x))
+            self.raise_exc(st, "ValueError", absent, node.lineno, exits)
+            j = fresh_int("idx")
+            st.assume(z3.And(j >= 0, j < recv.n, z3.Select(recv.arr, j) == x))
+            st.assume(z3.ForAll([i], z3.Implies(z3.And(i >= 0, i < j), z3.Select(recv.arr, i) != x)))
+            return Num(j, True)
         if name == "append" and recv.is_list:
             r = Seq(z3.Store(recv.arr, recv.n, to_real(args[0])), recv.n + 1, True)
             for k, v in list(st.env.items()):
